@@ -325,6 +325,20 @@ impl<'r, 'c, 's, W: Write> Serializer for DatumSerializer<'r, 'c, 's, W> {
 				self.serialize_str(variant)
 			}
 			SchemaNode::Union(union) => {
+				if variant == "Null" {
+					// Same as above: a unit variant named `Null` designates the `null` variant
+					// of the union if there is one (that's also how it gets deserialized)
+					if let Some((discriminant, SchemaNode::Null)) =
+						union.per_type_lookup.named("Null")
+					{
+						return self
+							.state
+							.writer
+							.write_varint(discriminant)
+							.map(|_| ())
+							.map_err(SerError::io);
+					}
+				}
 				self.serialize_union_unnamed(union, UnionVariantLookupKey::UnitVariant, |ser| {
 					ser.serialize_unit_variant(name, variant_index, variant)
 				})
